@@ -37,6 +37,19 @@ ARCH_VOCAB = [
     Sym("with_layer"),
 ]
 
+# definitions that are READ while they are being built (str(), the layer mapping handed to rules, a LayerRule based on
+# the half-built object) and extended afterwards: every later view must list what was supplied up to then
+ARCH_VOCAB_READ = [
+    Sym("layer", "L1"),
+    Sym("layer", "L2"),
+    Sym("layer", "L3"),
+    Sym("containing_modules", "a"),
+    Sym("containing_modules", ["ba", "mod"]),
+    Sym("have_modules_with_names_matching", "a.*"),
+    Sym("have_modules_with_names_matching", "c.*"),
+    Sym("READ"),
+]
+
 
 # three layers, three module names: a module of the FIRST layer offered to the third one, in either form
 ARCH_VOCAB3 = [
@@ -50,7 +63,7 @@ ARCH_VOCAB3 = [
     Sym("containing_modules", ["ba", "c"]),
     Sym("containing_modules", ["mod", "ba"]),
 ]
-VOCABS = {"arch": ARCH_VOCAB, "arch3": ARCH_VOCAB3}
+VOCABS = {"arch": ARCH_VOCAB, "arch3": ARCH_VOCAB3, "archread": ARCH_VOCAB_READ}
 
 
 def _mk_layered():
@@ -65,8 +78,33 @@ def _mk_layer_rule():
     return LayerRule()
 
 
+def mapping_view(obj):
+    """The definition as rules see it: LayeredArchitecture.layer_mapping (layers in order, module filters per layer,
+    layer of each listed module)."""
+    lm = obj.layer_mapping
+    layers = tuple(lm.all_layers)
+    per = tuple((n, tuple(f.identifier for f in lm.get_module_filters(n))) for n in layers)
+    owner = tuple((n, f.identifier, lm.get_layer_for_module_name(f.identifier)) for n in layers for f in lm.get_module_filters(n) if type(f).__name__ == "ModuleNameFilter")
+    return per, owner
+
+
+def _read(arg):
+    if isinstance(arg, tuple) and arg and arg[0] == "READ":
+        obj = arg[1]
+        str(obj)
+        mapping_view(obj)
+        try:
+            from pytestarch import LayerRule
+
+            LayerRule().based_on(obj).layers_that()
+        except Exception:  # noqa: BLE001 - building a rule on a half-built definition may be refused; it must not change it
+            pass
+        return None
+    return arg
+
+
 def arch_outcome(seq_or_len, prefix=(), vocab=None):
-    hist, expects, final, real, obj, aut = play(seq_or_len, vocab or ARCH_VOCAB, _mk_layered, LayeredArchitectureAutomaton, None, prefix=prefix)
+    hist, expects, final, real, obj, aut = play(seq_or_len, vocab or ARCH_VOCAB, _mk_layered, LayeredArchitectureAutomaton, None, _read, prefix=prefix)
     exp_pos = expects[0] if expects else None
     if real[0] == "RAISED":
         got = (real[1], "CONFIG" if real[2] == "ImproperlyConfigured" else real[2])
@@ -85,6 +123,13 @@ def arch_outcome(seq_or_len, prefix=(), vocab=None):
         spec_layers = tuple((n, tuple(m or [])) for n, m, _ in aut.layers)
         if rendered != aut.render() or per_layer != spec_layers:
             return ("MISMATCH", aut.render(), rendered)
+        try:
+            per, owner = mapping_view(obj)
+        except Exception as e:  # noqa: BLE001
+            return ("MISMATCH", "layer_mapping of the accepted definition", type(e).__name__)
+        want_owner = tuple((n, m, n) for n, ms, kind in aut.layers if kind == "names" for m in ms)
+        if per != spec_layers or owner != want_owner:
+            return ("MISMATCH", f"layer_mapping lists {spec_layers}, owners {want_owner}", f"layer_mapping lists {per}, owners {owner}")
         return ("ACCEPTED",)
     # a rejected call supplies nothing: the definition still lists exactly what the accepted calls supplied
     try:
@@ -138,6 +183,7 @@ def instances(tier: str) -> list[dict]:
         out.append({"part": "arch", "first": first, "L": L})
     for first in range(3):
         out.append({"part": "arch3", "first": first, "L": 6 if tier == "quick" else 7})
+    out.append({"part": "archread", "first": 0, "L": 7 if tier == "quick" else 8})
     for first in range(len(LAYER_VOCAB)):
         out.append({"part": "rule", "first": first, "L": L})
     from vf.engine.xh import kernel_names
@@ -232,7 +278,7 @@ def run(tier: str, only: str | None = None) -> int:
         items = [i for i in items if only in label_of(i)]
     rep.bounds = {
         "history_length": LEN[tier],
-        "vocabularies": {"LayeredArchitecture": [s.show() for s in ARCH_VOCAB], "LayeredArchitecture, three layers (length 6 / 7)": [s.show() for s in ARCH_VOCAB3], "LayerRule": [s.show() for s in LAYER_VOCAB]},
+        "vocabularies": {"LayeredArchitecture": [s.show() for s in ARCH_VOCAB], "LayeredArchitecture, three layers (length 6 / 7)": [s.show() for s in ARCH_VOCAB3], "LayeredArchitecture with intermediate reads (length 7 / 8)": [s.show() for s in ARCH_VOCAB_READ], "LayerRule": [s.show() for s in LAYER_VOCAB]},
         "kernel": "module names: symbolic strings <= 3 chars, each passed as str or [str]",
     }
     rep.assumptions = ["the history dimension is enumerated by the symbolic executor (n-ary choices); it is a finite exhaustive walk, marked degenerate", "module names in the vocabulary: 'a', 'ba', 'mod' (single- and multi-character, sharing characters)"]
